@@ -144,3 +144,63 @@ func lemmaQuotaOther(il *IPRequestLimiter, now time.Time, ip, other string) (ok 
 //@ func (*IPRequestLimiter).EndTime
 //@   requires il != nil
 //@   ensures  tns(result) == tns(il.ResetTime) + int(il.Interval)
+
+// ---------------------------------------------------------------------------
+// C14: loss-interval state machine (traffic patterns)
+
+// sumDurs: total duration of the first n intervals.
+func sumDurs(itvls []LossItvl, n int) int {
+	if n <= 0 {
+		return 0
+	}
+	return sumDurs(itvls, n-1) + itvls[n-1].durS
+}
+
+//@ recursive sumDurs
+
+// wfItvls: every interval has a positive duration and a real state (up/down/slow/hang).
+func wfItvls(itvls []LossItvl) bool {
+	return forall(0, len(itvls), func(k int) bool {
+		return itvls[k].durS > 0 && itvls[k].durS <= maxItvlDurS && itvls[k].state >= lossNo && itvls[k].state <= lossHang
+	})
+}
+
+// maxItvlDurS bounds one interval so that sums cannot overflow (digits are accumulated in an int).
+const maxItvlDurS = maxLossItvlDurS
+
+// lemmaSumDurs: prefix sums of well-formed intervals grow by at least one per interval.
+//@ lemma lemmaSumDurs
+//@   requires wfItvls(itvls) && 0 <= n && n <= len(itvls)
+//@   ensures  sumDurs(itvls, n) >= n && sumDurs(itvls, n) <= n * maxItvlDurS
+//@   ensures  forall k in [0, n+1) :: sumDurs(itvls, k) <= sumDurs(itvls, n) && sumDurs(itvls, k) >= k
+//@   loop 1 invariant 0 <= i && i <= n && sumDurs(itvls, i) >= i && sumDurs(itvls, i) <= i * maxItvlDurS
+//@   loop 1 invariant forall k in [0, i+1) :: sumDurs(itvls, k) <= sumDurs(itvls, i) && sumDurs(itvls, k) >= k
+//@   loop 1 decreases n - i
+func lemmaSumDurs(itvls []LossItvl, n int) {
+	for i := 0; i < n; i++ {
+	}
+}
+
+//@ func LossItvls.CycleDurS
+//@   ensures result == sumDurs(l.Itvls, len(l.Itvls))
+//@   loop 1 invariant 0 <= rangeidx && rangeidx <= len(l.Itvls) && dur == sumDurs(l.Itvls, rangeidx)
+
+// StateAt: the state of the interval that contains second nowS of the cyclically repeated pattern.
+//@ func LossItvls.StateAt
+//@   requires wfItvls(l.Itvls) && len(l.Itvls) > 0 && len(l.Itvls) <= 1000 && nowS >= 0
+//@   use      lemmaSumDurs(l.Itvls, len(l.Itvls))
+//@   ensures  never_unknown: result >= lossNo && result <= lossHang
+//@   ensures  prescribed: exists k in [0, len(l.Itvls)) :: result == l.Itvls[k].state && sumDurs(l.Itvls, k) <= nowS % sumDurs(l.Itvls, len(l.Itvls)) && nowS % sumDurs(l.Itvls, len(l.Itvls)) < sumDurs(l.Itvls, k+1)
+//@   loop 1 invariant 0 <= rangeidx && rangeidx <= len(l.Itvls) && dur == sumDurs(l.Itvls, len(l.Itvls)) && dur > 0
+//@   loop 1 invariant rest == nowS % dur - sumDurs(l.Itvls, rangeidx) && rest >= 0
+
+// CreateLossItvls: an accepted pattern yields a non-empty list of well-formed intervals.
+//@ func CreateLossItvls
+//@   returns  (li, err)
+//@   ensures  wf: err == nil ==> wfItvls(li.Itvls)
+//@   ensures  nonempty: err == nil ==> len(li.Itvls) > 0
+//@   allocates
+//@   loop 1 invariant 0 <= i && i <= len(pattern) && dur >= 0 && dur <= maxItvlDurS
+//@   loop 1 invariant state >= lossUnknown && state <= lossHang && wfItvls(li.Itvls)
+//@   loop 1 invariant li.Itvls == nil || fresh(li.Itvls)
+//@   loop 1 decreases len(pattern) - i
